@@ -300,6 +300,9 @@ def boundary_histories():
         H.append([dict(op='incr', key=K, delta=5, initial=42, exp=0xffffffff, quiet=q), dict(op='get', key=K), dict(op='decr', key=K, delta=5, initial=42, exp=7, quiet=q), dict(op='get', key=K), dict(op='incr', key=K, delta=8, exp=0xffffffff, quiet=q), dict(op='get', key=K), dict(op='tick', n=7), dict(op='get', key=K)])
         H.append([s(), dict(op='incr', key=K, delta=1, cas='stale', quiet=q), dict(op='set', key=K, value=b'10'), dict(op='incr', key=K, delta=1, cas='stale', quiet=q), dict(op='get', key=K), dict(op='incr', key=K, delta=1, cas='cur', quiet=q), dict(op='get', key=K)])
         H.append([dict(op='set', key=b'x' * 250, value=b'', flags=0xffffffff), dict(op='getk', key=b'x' * 250, quiet=q), dict(op='getk', key=b'y' * 17), dict(op='getk', key=b'y' * 17, quiet=True), dict(op='noop', opaque=0xabcdef01), dict(op='version', opaque=5)])
+        for big in (2592000, 2592001, 2**31, 2**32 - 1):
+            H.append([dict(op='tick', n=100), s(exp=big), dict(op='get', key=K), dict(op='tick', n=1000), dict(op='get', key=K), dict(op='tick', n=big - 1001), dict(op='get', key=K), dict(op='tick', n=1), dict(op='get', key=K)])
+        H.append([dict(op='set', key=K, value=b'7'), dict(op='incr', key=K, delta=0, cas='stale', quiet=q), dict(op='get', key=K), dict(op='incr', key=K, delta=0, quiet=q), dict(op='set', key=K, value=b'9', cas='stale', quiet=q), dict(op='get', key=K)])
         H.append([dict(op='tick', n=100), s(exp=10), dict(op='tick', n=8), dict(op='flush', delay=5, quiet=q), dict(op='tick', n=2), dict(op='get', key=K)])
         H.append([dict(op='tick', n=100), s(exp=10), dict(op='tick', n=50), dict(op='flush', delay=5, quiet=q), dict(op='tick', n=1), dict(op='get', key=K)])
         H.append([s(), s(), dict(op='set', key=J, value=b'x', cas=2**64 - 1, quiet=q), s(), s(), s(), dict(op='set', key=K, value=b'LOST', cas='stale', quiet=q), dict(op='get', key=K)])
